@@ -645,6 +645,10 @@ func (w *c07World) viol(sig string, op c07Op, extra map[string]any) {
 	for k, v := range extra {
 		d[k] = v
 	}
+	if strings.Contains(sig, "concurrent-login") {
+		w.run.Violation(sig, d)
+		return
+	}
 	if strings.Contains(sig, "dead") {
 		w.run.Violation(strings.SplitN(sig, "|dead=", 2)[0], d)
 		return
@@ -760,8 +764,8 @@ func (w *c07World) check(op c07Op) {
 	// at most one control connection per client is current: in a quiescent state reached through
 	// handshakes only, two live registered connections whose latest authentication was a
 	// control-type handshake never carry the same client id (judged in sequential runs only;
-	// simultaneous logins are counted at barriers, not judged)
-	if !w.direct && !strings.HasPrefix(op.Kind, "barrier") {
+	// at barriers the same is judged under the signature suffix concurrent-login)
+	if !w.direct {
 		per := map[int64][]string{}
 		for _, c := range all {
 			k := inList[c.connID]
@@ -775,7 +779,12 @@ func (w *c07World) check(op c07Op) {
 		for x, ids := range per {
 			if len(ids) > 1 {
 				sort.Strings(ids)
-				w.viol("C07:two-live-control-conns-for-client", op, map[string]any{"client": x, "conns": ids})
+				sig := "C07:two-live-control-conns-for-client"
+				if strings.HasPrefix(op.Kind, "barrier") {
+					// quiescent state after simultaneous logins: the loser was neither evicted nor is it current
+					sig += "|concurrent-login"
+				}
+				w.viol(sig, op, map[string]any{"client": x, "conns": ids, "by_client_returns": w.sm.GetControlConnectionByClientID(x).GetConnID()})
 			}
 		}
 	}
@@ -1058,7 +1067,9 @@ func TestVerifC07RegistryConcurrent(t *testing.T) {
 	}
 	run.Rule(fmt.Sprintf("%d goroutines x 3 phases x 12 seeded random operations per round over 8 connection slots (one owner each) and clients A,B,C; own-slot operations: accept, reuse of another slot's connection id (not in the -race mix), login/tunnel-login/failed handshake, UpdateControlConnectionAuth, heartbeat, Unregister, disconnect command, peer EOF; global: KickOldControlConnection, ageing, stale sweep, CloseConnection of any slot, lookups; registry-only mix (no packet handlers) when run under -race: %v; cloud-control double mode = round mod 5 (absent, always failing, alternating, seeded pattern, healthy); invariants at barriers after adapter cleanup; distinct = round x phase outcomes (registered set shape)", G, regOnly))
 	run.Observe("registry_only_mix", regOnly)
-	ownFull := []string{"reuse", "accept", "accept", "login", "login", "login", "tlogin", "fail", "auth", "hb", "hb", "unreg", "disc", "close"}
+	// (no direct UpdateControlConnectionAuth here: it takes the index without evicting, which would
+	// blur the "one current control connection per client" judgement at the barriers)
+	ownFull := []string{"reuse", "accept", "accept", "login", "login", "login", "tlogin", "fail", "hb", "hb", "unreg", "disc", "close"}
 	ownReg := []string{"accept", "accept", "regauth", "regauth", "regauth", "unreg", "close"}
 	global := []string{"kick", "kick", "age", "age", "sweep", "apiclose", "lookups"}
 	if regOnly {
